@@ -29,7 +29,7 @@ import operator
 import os
 from typing import Any
 
-from ..common import Ctx, S, VERIF, known_matcher, run_model
+from ..common import Ctx, S, SX_BAD, VERIF, known_matcher, run_model
 from .. import trees
 
 import htmltools
@@ -469,7 +469,13 @@ def run_history(h: dict) -> dict:
                 bad_elems.append(f"is_tag_node false for stored {type(x).__name__}")
         rejected = []
 
+        seen: set[int] = set()
+
         def walk(v: Any) -> None:
+            if type(v) in (list, tuple, TagList):
+                if id(v) in seen:
+                    return
+                seen.add(id(v))
             try:
                 flat1_py(enc_live(v, w))
                 accepted = True
@@ -675,11 +681,13 @@ W_IADD = "+= bypasses normalisation (inherited UserList.__iadd__): result differ
 W_CHILD = "is_tag_child rejects a value that the child operations accept"
 
 
+@known_matcher("F4-iadd-unnormalised")
 @known_matcher("F4")
 def _m_f4(what: str, case: Any, detail: dict) -> bool:
     return what == W_IADD
 
 
+@known_matcher("F5-is-tag-child-int")
 @known_matcher("F5")
 def _m_f5(what: str, case: Any, detail: dict) -> bool:
     return what == W_CHILD and all(v[0] in (1, 3) for v in detail.get("rejected", [[-1]]))
@@ -710,11 +718,6 @@ def check_histories(ctx: Ctx, name: str, hs: list[dict]) -> None:
         h = r["history"]
         ctx.count(h, nontrivial(h), f"{h['recv']} history")
         E: list = []
-        if r["aborted"] is not None:
-            ctx.violation("supported argument rejected: TagList(*items) raised for valid items",
-                          {"recv": h["recv"], "ops": h["ops"][:len(r["steps"]) + 1], "step": len(r["steps"])},
-                          {"impl_output": r["aborted"]["exception"], "expected": "a TagList",
-                           "argument": r["aborted"]["arg"]})
         tainted = False  # a violation has been reported for this history: what follows is
         #                  a consequence of it and is left to the correspondence only
         for k, s in enumerate(r["steps"]):
@@ -722,8 +725,8 @@ def check_histories(ctx: Ctx, name: str, hs: list[dict]) -> None:
             case = {"recv": h["recv"], "ops": h["ops"][:k + 1], "step": k}
             recv_after, outcome = s["impl"]
             # ---- B: correspondence with the extracted model
-            if isinstance(mt, tuple):
-                mv: Any = mt
+            if isinstance(mt, tuple) or mt == SX_BAD:
+                mv: Any = ["model: input outside the modelled domain", mt]
             else:
                 m = mt[k]
                 mres = ["ok", m[1][1]] if m[1][0] == 0 else ["err", m[1][1]]
@@ -746,7 +749,7 @@ def check_histories(ctx: Ctx, name: str, hs: list[dict]) -> None:
             except SpecValueError:
                 want = ["err", 5]
             # cross-check of the Python transcription against the extracted Coq op_spec
-            if not isinstance(st, tuple):
+            if not isinstance(st, tuple) and st != SX_BAD:
                 cs = st[k]
                 if cs[0] == 0:
                     cwant = ["ok", [[4, n[1]] if n[0] == 0 else [5, n[1]] if n[0] == 1
@@ -755,13 +758,13 @@ def check_histories(ctx: Ctx, name: str, hs: list[dict]) -> None:
                     cwant = ["err", cs[1]]
                 if cwant != want and len(oracle_mismatch) < 5:
                     oracle_mismatch.append({"case": case, "python_spec": want, "coq_spec": cwant})
-            else:
+            elif isinstance(st, tuple):
                 oracle_mismatch.append({"case": case, "coq_spec": st})
             exp_recv = want[1] if (want[0] == "ok" and s["op"][0] in IN_PLACE) else E
             what = None
             detail: dict = {"impl_output": [recv_after, outcome], "expected": [exp_recv, want]}
             if outcome != want or recv_after != exp_recv:
-                if s["op"][0] == "iadd":
+                if s["op"][0] == "iadd" and not IADD_NORMALISES:
                     what = W_IADD
                 elif want[0] == "err" and outcome[0] == "ok":
                     what = "unsupported argument accepted: no TypeError"
@@ -783,6 +786,11 @@ def check_histories(ctx: Ctx, name: str, hs: list[dict]) -> None:
                 tainted = True
             else:
                 E = want[1] if want[0] == "ok" else E
+        if r["aborted"] is not None and not tainted:
+            ctx.violation("supported argument rejected: TagList(*items) raised for valid items",
+                          {"recv": h["recv"], "ops": h["ops"][:len(r["steps"]) + 1], "step": len(r["steps"])},
+                          {"impl_output": r["aborted"]["exception"], "expected": "a TagList",
+                           "argument": r["aborted"]["arg"]})
     ctx.corr_cases += sum(len(r["steps"]) for r in runs)
     ctx.obligation(f"correspondence {name}: impl vs extracted exec_op after every step "
                    f"({len(runs)} histories, {sum(len(r['steps']) for r in runs)} steps)",
@@ -835,8 +843,8 @@ def check_values(ctx: Ctx, n: int) -> None:
         except Exception as e:  # noqa: BLE001
             it = ["err", exc_code(e)]
         iv = [bool(_core.is_tag_child(o)), bool(_core.is_tag_node(o)), it]
-        if isinstance(m, tuple):
-            mv: Any = m
+        if isinstance(m, tuple) or m == SX_BAD:
+            mv: Any = ["model: input outside the modelled domain", m]
         else:
             mv = [bool(m[0]), bool(m[1]), ["ok", m[3][1]] if m[3][0] == 0 else ["err", m[3][1]]]
         if mv != iv:
@@ -846,7 +854,7 @@ def check_values(ctx: Ctx, n: int) -> None:
             want: Any = ["ok", flat_spec_py(as_iterable_py(s))]
         except SpecTypeError:
             want = ["err", 3]
-        if not isinstance(m, tuple):
+        if not isinstance(m, tuple) and m != SX_BAD:
             cs = m[2]
             cwant = (["ok", [[4, x[1]] if x[0] == 0 else [5, x[1]] if x[0] == 1 else [6 + x[1], x[2]]
                              for x in cs[1]]] if cs[0] == 0 else ["err", cs[1]])
